@@ -6,11 +6,13 @@ import (
 	"context"
 	"os"
 	"os/exec"
+	"path/filepath"
 
 	"grog/internal/caching"
 	"grog/internal/caching/backends"
 	"grog/internal/config"
 	"grog/internal/dag"
+	"grog/internal/label"
 	"grog/internal/model"
 	"grog/internal/output"
 	"grog/internal/zzverif/sym"
@@ -36,9 +38,10 @@ type sigWorld struct {
 	fired              bool // cancel() of the root context has returned
 	startedAfterSignal int
 	notKilled          int
-	interrupted        [3]bool
-	finished           [3]bool // command ran to completion
+	interrupted        [4]bool
+	finished           [4]bool // command ran to completion
 	unfinishedAtSignal int     // commands that had not completed when the signal had been delivered
+	total              int     // number of targets in the scenario
 }
 
 var sw *sigWorld
@@ -50,8 +53,8 @@ func (s *sigWorld) deliver() {
 	s.delivering = true
 	s.cancel()
 	s.fired = true
-	for _, f := range s.finished {
-		if !f {
+	for i, f := range s.finished {
+		if !f && i < s.total {
 			s.unfinishedAtSignal++
 		}
 	}
@@ -96,31 +99,49 @@ func writeWS(rel, content string) error {
 
 type c18Graph struct {
 	targets []*model.Target
+	extra   []model.BuildNode // aliases
 	outs    map[string]string // workspace-relative output -> final content
+	outOf   []string          // per target: its output
 }
 
-// a <- b (b depends on a), c independent
-func c18Targets() *c18Graph {
+// a <- b (b depends on a, optionally through an alias), c independent
+func c18Targets(viaAlias bool) *c18Graph {
 	a := fileTarget("a", "build-a", "a.out")
 	b := fileTarget("b", "build-b", "b.out")
-	b.Dependencies = append(b.Dependencies, a.Label)
+	g := &c18Graph{outs: map[string]string{"p/a.out": "A", "p/b.out": "B", "p/c.out": "C"}, outOf: []string{"p/a.out", "p/b.out", "p/c.out"}}
+	if viaAlias {
+		x := &model.Alias{Label: label.TL("p", "x"), Actual: a.Label}
+		b.Dependencies = append(b.Dependencies, x.Label)
+		g.extra = append(g.extra, x)
+	} else {
+		b.Dependencies = append(b.Dependencies, a.Label)
+	}
 	c := fileTarget("c", "build-c", "c.out")
-	return &c18Graph{targets: []*model.Target{a, b, c},
-		outs: map[string]string{"p/a.out": "A", "p/b.out": "B", "p/c.out": "C"}}
+	g.targets = []*model.Target{a, b, c}
+	if sym.Tier() == "thorough" {
+		// a second chain: c <- d
+		d := fileTarget("d", "build-d", "d.out")
+		d.Dependencies = append(d.Dependencies, c.Label)
+		g.targets = append(g.targets, d)
+		g.outs["p/d.out"] = "D"
+		g.outOf = append(g.outOf, "p/d.out")
+	}
+	return g
 }
 
 func (g *c18Graph) install(sigChoice bool) {
 	cmdCtxFuncs["build-a"] = slowCommand(0, "build-a", map[string]string{"p/a.out": "A"}, sigChoice)
 	cmdCtxFuncs["build-b"] = slowCommand(1, "build-b", map[string]string{"p/b.out": "B"}, sigChoice)
 	cmdCtxFuncs["build-c"] = slowCommand(2, "build-c", map[string]string{"p/c.out": "C"}, sigChoice)
+	cmdCtxFuncs["build-d"] = slowCommand(3, "build-d", map[string]string{"p/d.out": "D"}, sigChoice)
 }
 
-func c18Executor(ctx context.Context, failFast bool, nodes []*model.Target) (*Executor, backends.CacheBackend) {
-	return fullExecutor(ctx, failFast, config.LoadOutputsAll, nodes)
+func c18Executor(ctx context.Context, failFast bool, nodes []*model.Target, extra ...model.BuildNode) (*Executor, backends.CacheBackend) {
+	return fullExecutor(ctx, failFast, config.LoadOutputsAll, nodes, extra...)
 }
 
 // fullExecutor wires a real Executor the way cmds/build.go does (file-system cache, CAS, registry, graph with all nodes selected)
-func fullExecutor(ctx context.Context, failFast bool, mode config.LoadOutputsMode, nodes []*model.Target) (*Executor, backends.CacheBackend) {
+func fullExecutor(ctx context.Context, failFast bool, mode config.LoadOutputsMode, nodes []*model.Target, extra ...model.BuildNode) (*Executor, backends.CacheBackend) {
 	be, err := backends.NewFileSystemCache(ctx)
 	if err != nil {
 		panic(err)
@@ -129,6 +150,10 @@ func fullExecutor(ctx context.Context, failFast bool, mode config.LoadOutputsMod
 	reg := output.NewRegistry(ctx, cas)
 	var bn []model.BuildNode
 	for _, n := range nodes {
+		n.Select()
+		bn = append(bn, n)
+	}
+	for _, n := range extra {
 		n.Select()
 		bn = append(bn, n)
 	}
@@ -156,12 +181,16 @@ func exitsNonZero(comps dag.CompletionMap, err error) bool {
 func c18Run(sigChoice bool, timerSignal bool) {
 	w := newWorld()
 	_ = w
-	g := c18Targets()
+	g := c18Targets(flag("dependency_behind_an_alias"))
 	g.install(sigChoice)
-	config.Global.NumWorkers = 1 + sym.Choice("workers", 2)
+	maxW := 2
+	if sym.Tier() == "thorough" {
+		maxW = 3
+	}
+	config.Global.NumWorkers = 1 + sym.Choice("workers", maxW)
 	failFast := flag("fail_fast")
 	root, cancel := context.WithCancel(context.Background())
-	sw = &sigWorld{root: root, cancel: cancel}
+	sw = &sigWorld{root: root, cancel: cancel, total: len(g.targets)}
 	if sigChoice && flag("signal_before_execute") {
 		sw.deliver()
 	}
@@ -172,7 +201,7 @@ func c18Run(sigChoice bool, timerSignal bool) {
 			sw.deliver()
 		}()
 	}
-	e, be := c18Executor(root, failFast, g.targets)
+	e, be := c18Executor(root, failFast, g.targets, g.extra...)
 	comps, err := e.Execute(root)
 	sym.Quiesce()
 	sym.Reach("C18.I0.execute-returned")
@@ -201,6 +230,13 @@ func c18Run(sigChoice bool, timerSignal bool) {
 			sym.Assert(ok && got == c, "C18.I2.exit-zero-implies-all-outputs-built")
 		}
 	}
+	// ... and a target reported as successful has really been built (no "success" for work that never ran)
+	for i, t := range g.targets {
+		if c, ok := comps[t.Label]; ok && c.IsSuccess {
+			got, present := readWS(g.outOf[i])
+			sym.Assert(present && got == g.outs[g.outOf[i]], "C18.I2.target-reported-successful-was-built")
+		}
+	}
 	// I3: no cache entry for interrupted (or otherwise unsuccessful) targets; whatever is recorded is complete
 	for i, t := range g.targets {
 		if sw.interrupted[i] && t.ChangeHash != "" {
@@ -218,12 +254,13 @@ func c18Run(sigChoice bool, timerSignal bool) {
 	if !signalled {
 		return
 	}
-	sym.ProcessExit() // build.go: os.Exit(1); the follow-up build is a new process
-	g2 := c18Targets()
-	sw = &sigWorld{}
+	sym.ProcessExit()            // build.go: os.Exit(1); the follow-up build is a new process
+	sym.ExploreSchedules(false) // ... run under the default scheduler
+	g2 := c18Targets(len(g.extra) > 0)
+	sw = &sigWorld{total: len(g2.targets)}
 	sw.root, sw.cancel = context.WithCancel(context.Background())
 	g2.install(false)
-	e2, _ := c18Executor(sw.root, failFast, g2.targets)
+	e2, _ := c18Executor(sw.root, failFast, g2.targets, g2.extra...)
 	comps2, err2 := e2.Execute(sw.root)
 	sym.Quiesce()
 	sym.Assert(!exitsNonZero(comps2, err2), "C18.I4.follow-up-build-succeeds")
@@ -238,3 +275,56 @@ func VerifC18_I_signal_points() { c18Run(true, false) }
 
 // signal at any visible scheduling point (timer goroutine fired early by the scheduler)
 func VerifC18_I_signal_any_time() { c18Run(false, true) }
+
+// signal while a dependency is being re-run inline for its dependant (load_outputs=minimal, the
+// dependency is a cache hit whose blob has disappeared, the dependant has to execute)
+func VerifC18_I_signal_during_dependency_rerun() {
+	newWorld()
+	config.Global.NumWorkers = 1 + sym.Choice("workers", 2)
+	sym.ExploreSchedules(false)
+	g1 := c18Targets(false)
+	sw = &sigWorld{total: len(g1.targets)}
+	sw.root, sw.cancel = context.WithCancel(context.Background())
+	g1.install(false)
+	e1, _ := c18Executor(sw.root, false, g1.targets)
+	comps1, err1 := e1.Execute(sw.root)
+	sym.Quiesce()
+	sym.Assert(!exitsNonZero(comps1, err1), "C18.I5.setup-first-build")
+	sym.ProcessExit()
+	sym.ExploreSchedules(true)
+	// fresh checkout, a's blob lost, b edited
+	for _, f := range []string{"p/a.out", "p/b.out", "p/c.out"} {
+		_ = os.Remove(wsPath(f))
+	}
+	cas := filepath.Join(cacheDir(), "cas")
+	for _, name := range listDir(cas) {
+		if b, err := os.ReadFile(filepath.Join(cas, name)); err == nil && string(b) == "A" {
+			_ = os.Remove(filepath.Join(cas, name))
+			sym.Reach("C18.I5.blob-lost")
+		}
+	}
+	g := c18Targets(false)
+	g.targets[1].Command = "build-b2"
+	root, cancel := context.WithCancel(context.Background())
+	sw = &sigWorld{root: root, cancel: cancel, total: len(g.targets)}
+	g.install(true)
+	cmdCtxFuncs["build-b2"] = slowCommand(1, "build-b2", map[string]string{"p/b.out": "B"}, true)
+	e, be := fullExecutor(root, false, config.LoadOutputsMinimal, g.targets)
+	comps, err := e.Execute(root)
+	sym.Quiesce()
+	sym.Assert(sw.startedAfterSignal == 0, "C18.I1.no-command-started-after-signal")
+	sym.Assert(sw.notKilled == 0, "C18.I1.running-command-context-cancelled-by-signal")
+	if sw.fired && sw.unfinishedAtSignal > 0 && (!sw.finished[1]) {
+		sym.Assert(exitsNonZero(comps, err), "C18.I2.interrupted-build-exits-non-zero")
+	}
+	for i, t := range g.targets {
+		if sw.interrupted[i] && t.ChangeHash != "" && i == 1 {
+			ok, xerr := be.Exists(context.Background(), "target", t.ChangeHash)
+			sym.Assert(xerr == nil && !ok, "C18.I3.no-cache-entry-for-interrupted-target")
+		}
+	}
+	if sw.interrupted[0] {
+		sym.Reach("C18.I5.signal-killed-the-dependency-rerun")
+	}
+	// (no store audit here: the scenario starts from a store that has lost a blob)
+}
